@@ -2,7 +2,7 @@
    extraction and for vm_compute cross-checks. *)
 From Coq Require Import ZArith List Bool Arith Lia.
 From Coq Require Import QArith.
-From RV Require Import Val Syntax Rho Offline Online Sat IA Pastify Jitter Units Support Lexer Parser Elab ExtZ.
+From RV Require Import Val Syntax Rho Offline Online Sat IA Pastify Jitter Units Support Lexer Parser Elab Dense ExtZ.
 Import ListNotations.
 
 Definition zformula := @formula ExtZVal.
@@ -30,6 +30,30 @@ Definition run_supported (k : nat) (p : zformula) : bool :=
 
 Definition run_parse := parse_outcome.
 Definition run_lex := lex_string.
+
+Definition run_dn (pk : zformula -> zformula -> pkind) (p : zformula) (W : list (list (Z * extz))) : list (Z * extz) :=
+  compress (Dn ExtZArith pk p W).
+
+(* dense-time exactness pass: every arithmetic node stays inside the exact float domain at every break-point *)
+Fixpoint dn_exact (pk : zformula -> zformula -> pkind) (p : zformula) (W : list (list (Z * extz))) {struct p} : bool :=
+  let D q := Dn ExtZArith pk q W in
+  let both (o : aop2) f g :=
+    let a := D f in let b := D g in
+    match a, b with
+    | [], _ | _, [] => true
+    | _, _ => let t0 := Z.max (start a) (start b) in
+              forallb (fun c => ez_ok2 o (den a c) (den b c)) (cands (times a ++ times b) [0%Z] t0)
+    end in
+  match p with
+  | Var _ | Const _ => true
+  | A1 o f => dn_exact pk f W && forallb (fun s => ez_ok1 o (snd s)) (D f)
+  | A2 o f g => dn_exact pk f W && dn_exact pk g W && both o f g
+  | Pred _ f g | Iff f g | Xor f g => dn_exact pk f W && dn_exact pk g W && both Sub f g
+  | Not f | Rise f | Fall f | Prev f | SPrev f | Next f | SNext f | Once f | Hist f | Ev f | Alw f
+  | OnceT _ _ f | HistT _ _ f | EvT _ _ f | AlwT _ _ f => dn_exact pk f W
+  | And f g | Or f g | Implies f g | Since f g | Until f g
+  | SinceT _ _ f g | UntilT _ _ f g | Precedes _ _ f g => dn_exact pk f W && dn_exact pk g W
+  end.
 
 Definition run_hor (p : zformula) : nat := hor p.
 Definition run_bounded_future (p : zformula) : bool := bounded_future p.
